@@ -46,6 +46,11 @@ Definition rclass_beq (a b : rclass) : bool :=
 
 Definition lobs_of (l : layer) : lobs :=
   MkLO (l_name l) (l_base l) (l_state l) (l_mbusy l) (l_nmbusy l) (l_overlain l) (l_chroot l) (l_kmounts l).
+(* what `layercake list` (without -v) shows of a layer: name, parent, state, and one usage word --
+   "chroot", else "busy" when the layer is busy in any way *)
+Definition lobs_listed (lo : lobs) : lobs :=
+  MkLO (lo_name lo) (lo_base lo) (lo_state lo)
+       (negb (lo_chroot lo) && (lo_mbusy lo || lo_nmbusy lo || lo_overlain lo)) false false (lo_chroot lo) [].
 Fixpoint ins_lobs (x : lobs) (l : list lobs) : list lobs :=
   match l with [] => [x] | y :: r => if ltb (lo_name y) (lo_name x) then y :: ins_lobs x r else x :: l end.
 Definition sort_lobs (l : list lobs) : list lobs := fold_right ins_lobs [] l.
@@ -102,7 +107,12 @@ Definition step_corr (c : cfgT) (w : wobs) (s : step) : bool :=
   && fs_beq (r_fs r) (wo_fs w')
   && kstate_beq (r_ks r) (wo_ks w')
   && match s_res s, s_layers s with
-     | ROk, Some los => opt_beq (list_beq lobs_beq) (r_layers r) (Some (sort_lobs los))
+     | ROk, Some los =>
+       match s_argv s with
+       | [] => opt_beq (list_beq lobs_beq) (r_layers r) (Some (sort_lobs los))
+       | _ => (* a process-level `list`: the table it printed, row by row *)
+         opt_beq (list_beq lobs_beq) (option_map (map lobs_listed) (r_layers r)) (Some (sort_lobs los))
+       end
      | ROk, None =>
        (* no layer table observed: a hand-made step (the model has none either), or a step run by
           the real binary, whose probed layer table cannot be seen from outside the process *)
@@ -120,7 +130,11 @@ Definition step_diag (c : cfgT) (w : wobs) (s : step) : N :=
   + (if fs_beq (r_fs r) (wo_fs w') then 4 else 0)
   + (if kstate_beq (r_ks r) (wo_ks w') then 8 else 0)
   + (match s_res s, s_layers s with
-     | ROk, Some los => if opt_beq (list_beq lobs_beq) (r_layers r) (Some (sort_lobs los)) then 16 else 0
+     | ROk, Some los =>
+       if match s_argv s with
+          | [] => opt_beq (list_beq lobs_beq) (r_layers r) (Some (sort_lobs los))
+          | _ => opt_beq (list_beq lobs_beq) (option_map (map lobs_listed) (r_layers r)) (Some (sort_lobs los))
+          end then 16 else 0
      | _, _ => 16 end).
 Fixpoint diag_along (c : cfgT) (w : wobs) (ss : list step) : list N :=
   match ss with [] => [] | s :: r => step_diag c w s :: diag_along c (after w s) r end.
